@@ -1,4 +1,43 @@
 import RP.Driver.Common
--- line-protocol driver for property C05 (stub)
-def handle (_line : String) : String := "unimplemented"
+import RP.Model.Iso
+/-! line-protocol driver for C05. The first token of every op names the deck build.
+* `<std|short> canon <pocket> <public>` → `<pocket'> <public'> <perm as 4 digits> <isCanonical o> <isCanonical o'>`
+  (or `panic` when the model hits one of the Rust assertions)
+* `<std|short> permute <π as 4 digits> <pocket> <public>` → `<pocket'> <public'>` (or `panic`) -/
+open RP.Driver RP.Iso
+
+def maskOf? (d : String) : Option Nat :=
+  if d = "std" then some RP.Gen.handMaskStd
+  else if d = "short" then some RP.Gen.handMaskShort
+  else none
+
+def permOf? (s : String) : Option (List Nat) :=
+  let ds := s.toList.map (fun c => c.toNat - '0'.toNat)
+  if s.length = 4 ∧ s.toList.all (fun c => '0' ≤ c ∧ c ≤ '3') then some ds else none
+
+def digits (p : List Nat) : String := String.join (p.map toString)
+
+def b01 (b : Bool) : String := if b then "1" else "0"
+
+def handle (line : String) : String :=
+  match words line with
+  | [d, "canon", a, b] =>
+    match maskOf? d, a.toNat?, b.toNat? with
+    | some m, some pocket, some pub =>
+      let o : Obs := ⟨pocket, pub⟩
+      -- `canon? m o` and `isCanonical m o` unfolded by one step so that `permOf m o` is evaluated once
+      let p := permOf m o
+      match permute? m p o with
+      | some c => s!"{c.pocket} {c.board} {digits p} {b01 (p == suits)} {b01 (isCanonical m c)}"
+      | none => "panic"
+    | _, _, _ => "bad-op"
+  | [d, "permute", p, a, b] =>
+    match maskOf? d, permOf? p, a.toNat?, b.toNat? with
+    | some m, some π, some pocket, some pub =>
+      match permute? m π ⟨pocket, pub⟩ with
+      | some c => s!"{c.pocket} {c.board}"
+      | none => "panic"
+    | _, _, _, _ => "bad-op"
+  | _ => "bad-op"
+
 def main : IO Unit := RP.Driver.run handle
